@@ -296,7 +296,7 @@ fn worker(args: &Args, ti: usize, use_sqlite: bool, n_hist: u64, deadline: Insta
                 // names the same domain/path as the cookie it is meant to remove
                 case.cookie.domain = cfg::C12_DOMAINS[rng.below(3) as usize].map(|s| s.to_string());
                 case.cookie.path = cfg::C12_PATHS[rng.below(3) as usize].map(|s| s.to_string());
-                let h = hist::gen_history(&mut rng, 6, true);
+                let h = hist::gen_history(&mut rng, 6, true, true);
                 (case, h)
             }
             Mode::C12 => {
@@ -310,7 +310,7 @@ fn worker(args: &Args, ti: usize, use_sqlite: bool, n_hist: u64, deadline: Insta
                 // endings: empty client state / non-empty client state / invalidated
                 let ending = (n / 55) % 3;
                 let client_ops = ending == 1 || rng.chance(1, 3);
-                let mut h = hist::gen_history(&mut rng, 3, client_ops);
+                let mut h = hist::gen_history(&mut rng, 3, client_ops, false);
                 // explicit sync() adds nothing to C12 (and would only re-trigger C11's findings)
                 for r in h.reqs.iter_mut() {
                     r.ops.retain(|o| *o != hist::Op::Sync);
